@@ -124,6 +124,7 @@ type c17rScenario struct {
 	aW          *io.PipeWriter
 	toCli       *verifBuf
 	toSrv       *verifBuf
+	cliBase     int // length of what the client side had seen in-band when the scenario proper started (the relayed trigger)
 	closers     []io.Closer
 }
 
@@ -228,6 +229,7 @@ func c17rStart(c *ctx, rng *rand.Rand) (*c17rScenario, string) {
 		sc.finish()
 		return nil, "not-rewritten"
 	}
+	sc.cliBase = len(sc.toCli.bytes())
 	if sc.uid[:11] != uid0[:11] {
 		c.violate("tunnel-relay:trigger-id-changed", "the relayed trigger carries another id", fmt.Sprintf("fed %q, client side saw %q", trig, seen))
 	}
@@ -483,13 +485,36 @@ func (sc *c17rScenario) closeClient(p *c17Peer) {
 	time.Sleep(3 * time.Millisecond)
 }
 
+// doReset: the relay's own handshake fails on a junk line that arrives in-band (the client's terminal): FAIL both
+// ways, flushHandshakeBuffer(false), resetToStandby(kRelayHandshaking).  (The relay is handshaking from the trigger on.)
 func (sc *c17rScenario) doReset() {
-	trzsz.VerifRelayReset(sc.relay)
-	sc.ev("r")
+	sc.inband(0, []byte("@@\n"))
+	sc.ev("hA000")
+	standby := trzsz.VerifRelayStatusConsts()[0]
+	c17WaitUntil(3*time.Second, func() bool { return trzsz.VerifRelayStatus(sc.relay) == standby })
 	sc.reset = true
 	// a pump that has seen io.EOF polls the back-pointer every 50 ms
 	time.Sleep(130 * time.Millisecond)
 	sc.refreshAdopted()
+}
+
+// inband: bytes arrive in-band: dir 0 = typed at the client's terminal (the relay's clientIn), dir 1 = printed by
+// the server (the relay's serverOut).  io.Pipe: the write returns when the relay's pump has taken them.
+func (sc *c17rScenario) inband(dir int, b []byte) {
+	if dir == 0 {
+		sc.aW.Write(b)
+	} else {
+		sc.dW.Write(b)
+	}
+	sc.ev(fmt.Sprintf("i%d:%s", dir, hx(b)))
+}
+
+// c17rCanon: the lines the relay writes itself (it re-encodes the ACT and the CFG, and words its FAIL) are
+// compared as tokens
+var c17rLineRe = regexp.MustCompile(`#(ACT|CFG|FAIL|fail):[^\n]*\n`)
+
+func c17rCanon(b []byte) []byte {
+	return c17rLineRe.ReplaceAll(b, []byte("#$1\n"))
 }
 
 func c17rObs(p *c17Peer) string {
@@ -504,6 +529,7 @@ func c17rObs(p *c17Peer) string {
 		// what arrived on an end the harness closed itself depends on when it stopped reading: not compared
 		return "P"
 	}
+	g = c17rCanon(g)
 	if len(g) > 0 {
 		if c {
 			return "R" + hx(g) + "C"
@@ -785,6 +811,282 @@ func c17rSequential(c *ctx, seed int64, forced [][2]int, forcedEnd int, prog *c1
 	return &c17Line{true, "rtunnel_run", result, []string{hx([]byte(sc.uid)), strconv.Itoa(sc.sport), strconv.Itoa(sc.rport), evs}}
 }
 
+// ---- in-band bytes at every point of the relay's handshake ----
+
+type c17rHsPlan struct {
+	est       bool // the tunnel is established first (a genuine client, a right server)
+	actTunnel bool // the client's ACT travels through the tunnel (needs est)
+	tun       bool // the ACT's tunnel field (true needs est)
+	confirm   bool
+	junk      bool       // a junk line instead of the ACT: the relay's handshake fails
+	typed     [4][2]bool // phase A (before the ACT), B (between ACT and CFG), C (after the CFG), D (after the reset) x {keys typed at the client, noise printed by the server}
+	exit      int        // 0 none, 1 "#EXIT:" from the client through the tunnel, 2 "#EXIT:" typed in-band
+}
+
+func (pl c17rHsPlan) String() string {
+	b := func(v bool) string {
+		if v {
+			return "1"
+		}
+		return "0"
+	}
+	t := ""
+	for ph := 0; ph < 4; ph++ {
+		t += b(pl.typed[ph][0]) + b(pl.typed[ph][1])
+	}
+	return fmt.Sprintf("est=%s act-through-tunnel=%s tunnel=%s confirm=%s junk=%s typed(AkAnBkBnCkCnDkDn)=%s exit=%d", b(pl.est), b(pl.actTunnel), b(pl.tun), b(pl.confirm), b(pl.junk), t, pl.exit)
+}
+
+func c17rJSONLine(typ string, m map[string]any) []byte {
+	js, _ := json.Marshal(m)
+	return append(encodeLine(typ, js), '\n')
+}
+
+// c17rHandshake: one scenario around the relay's own ACT/CFG handshake; emits an rtunnel_hs case
+func c17rHandshake(c *ctx, seed int64, pl c17rHsPlan, prog *c17rProgress) *c17Line {
+	rng := rand.New(rand.NewSource(seed))
+	sc, note := c17rStart(c, rng)
+	if sc == nil {
+		c.count(note)
+		return nil
+	}
+	prog.set(sc)
+	defer sc.finish()
+	sc.mu.Lock()
+	sc.desc = append(sc.desc, "handshake{"+pl.String()+"}")
+	sc.mu.Unlock()
+	phaseName := []string{"before-ACT", "between-ACT-and-CFG", "after-CFG", "after-reset"}
+	var typedAt [4][2][]byte
+	typeNow := func(ph int) {
+		for dir := 0; dir < 2; dir++ {
+			if pl.typed[ph][dir] {
+				// no newline and no '#': a complete line would be read by the relay's handshake goroutine
+				b := []byte(fmt.Sprintf("<%s%c>%s\r", []string{"K", "N"}[dir], 'A'+ph, []string{"ls -l", "echo hi", "\x1b[0m$ ", "q"}[rng.Intn(4)]))
+				typedAt[ph][dir] = b
+				sc.inband(dir, b)
+				c.count("typed:" + phaseName[ph] + ":" + []string{"keys", "noise"}[dir])
+			}
+		}
+	}
+	typeNow(0)
+	g := -1
+	if pl.est {
+		p := sc.connect(c17Right, c17rSrvRight)
+		sc.mu.Lock()
+		sc.desc = append(sc.desc, "GENUINE")
+		sc.mu.Unlock()
+		ch1, _, _, _ := sc.hellos()
+		sc.writeClient(p, []byte(ch1))
+		sc.refreshAdopted()
+		if sc.adopted != p.idx {
+			c.violate("tunnel-relay:genuine-not-adopted", "a genuine client and a right server did not end up in tunnelRelay", sc.describe())
+			return nil
+		}
+		g = p.idx
+	}
+	viaTunnel := pl.tun && pl.est // where the relay's own lines travel once the ACT has been read
+	srvSees := func() []byte {
+		if viaTunnel {
+			got, _ := sc.srvs[g].state()
+			return got
+		}
+		return sc.toSrv.bytes()
+	}
+	cliSees := func() []byte {
+		if viaTunnel {
+			got, _ := sc.peers[g].state()
+			return got
+		}
+		return sc.toCli.bytes()[sc.cliBase:]
+	}
+	// the ACT
+	line := c17rJSONLine("ACT", map[string]any{"lang": "go", "version": "1.1.8", "confirm": pl.confirm, "newline": "\n", "protocol": 4,
+		"binary": true, "support_dir": true, "tunnel": pl.tun})
+	if pl.junk {
+		line = []byte("@@junk@@\n")
+	}
+	if pl.actTunnel && g >= 0 {
+		sc.peers[g].write(line)
+		sc.ev(fmt.Sprintf("w%d:%s", g, hx(line)))
+	} else {
+		sc.inband(0, line)
+	}
+	b2 := func(v bool) string {
+		if v {
+			return "1"
+		}
+		return "0"
+	}
+	standby := trzsz.VerifRelayStatusConsts()[0]
+	waitStandby := func() bool {
+		return c17WaitUntil(3*time.Second, func() bool { return trzsz.VerifRelayStatus(sc.relay) == standby })
+	}
+	done := false
+	if pl.junk {
+		sc.ev("hA000")
+		if !waitStandby() {
+			c.violate("tunnel-relay:handshake-stuck:junk", "the relay did not return to standby after a junk line", sc.describe())
+		}
+		done = true
+	} else {
+		sc.ev("hA1" + b2(pl.tun) + b2(pl.confirm))
+		if !c17WaitUntil(3*time.Second, func() bool { return bytes.Contains(srvSees(), []byte("#ACT:")) }) {
+			c.violate("tunnel-relay:handshake-stuck:act", "the relay did not pass the ACT on to the server", sc.describe())
+			return nil
+		}
+	}
+	if !done && !pl.confirm {
+		if !waitStandby() {
+			c.violate("tunnel-relay:handshake-stuck:unconfirmed", "the relay did not return to standby after an ACT without confirm", sc.describe())
+		}
+		done = true
+	}
+	if !done {
+		typeNow(1)
+		cfg := c17rJSONLine("CFG", map[string]any{"lang": "go", "version": "1.1.8", "binary": true, "bufsize": 10240, "timeout": 20, "protocol": 4})
+		if viaTunnel {
+			sc.srvs[g].write(cfg)
+			sc.ev(fmt.Sprintf("W%d:%s", g, hx(cfg)))
+		} else {
+			sc.inband(1, cfg)
+		}
+		sc.ev("hC1")
+		if !c17WaitUntil(3*time.Second, func() bool { return bytes.Contains(cliSees(), []byte("#CFG:")) }) {
+			c.violate("tunnel-relay:handshake-stuck:cfg", "the relay did not pass the CFG on to the client", sc.describe())
+			return nil
+		}
+		transferring := trzsz.VerifRelayStatusConsts()[2]
+		c17WaitUntil(3*time.Second, func() bool { return trzsz.VerifRelayStatus(sc.relay) == transferring })
+		typeNow(2)
+		switch pl.exit {
+		case 1:
+			if g >= 0 {
+				ex := []byte("#EXIT:eJwDAAAAAAE=\n")
+				sc.peers[g].write(ex)
+				sc.ev(fmt.Sprintf("w%d:%s", g, hx(ex)))
+				sc.ev("r")
+				waitStandby()
+				done = true
+			}
+		case 2:
+			sc.inband(0, []byte("#EXIT:eJwDAAAAAAE=\n"))
+			sc.ev("r")
+			waitStandby()
+			done = true
+		}
+	}
+	if done {
+		sc.reset = true
+		time.Sleep(60 * time.Millisecond)
+		typeNow(3)
+	}
+	time.Sleep(time.Duration(c.pick(25, 50)) * time.Millisecond)
+	sc.refreshAdopted()
+	// direct oracles: what was typed in-band once the tunnel was agreed never shows up on a tunnel connection, and is passed on in-band
+	toSrv, toCli := sc.toSrv.bytes(), sc.toCli.bytes()[sc.cliBase:]
+	for ph := 0; ph < 4; ph++ {
+		for dir := 0; dir < 2; dir++ {
+			b := typedAt[ph][dir]
+			if b == nil {
+				continue
+			}
+			onTunnel := ""
+			for _, p := range sc.peers {
+				if got, _ := p.state(); bytes.Contains(got, b[:4]) {
+					onTunnel = fmt.Sprintf("client connection %d received %q", p.idx, c17Short(got))
+				}
+				if sp := sc.srvs[p.idx]; sp != nil {
+					if got, _ := sp.state(); bytes.Contains(got, b[:4]) {
+						onTunnel = fmt.Sprintf("server connection of pair %d received %q", p.idx, c17Short(got))
+					}
+				}
+			}
+			// once the relay has read the ACT nothing that arrives in-band may reach a tunnel connection: either the
+			// tunnel is agreed (in-band bytes are ignored by it) or it is not (the whole session is in-band); before
+			// the ACT only a session that goes on to agree on the tunnel may take parked in-band bytes into it
+			how := "after the tunnel had been agreed"
+			if !viaTunnel {
+				how = "in a session that did not agree on the tunnel"
+			}
+			if onTunnel != "" && (ph >= 1 || !viaTunnel) {
+				c.violate("tunnel-relay:inband-bytes-in-tunnel:"+phaseName[ph], "bytes that reached the relay IN-BAND "+how+" were written to a tunnel connection",
+					fmt.Sprintf("%q typed %s :: %s :: %s", b, phaseName[ph], onTunnel, sc.describe()))
+			}
+			inband := [][]byte{toSrv, toCli}[dir]
+			// (server output that arrives between ACT and CFG in a session without the tunnel is parked in front of the CFG
+			// line and read with it as junk: by design)
+			if ph >= 1 && !(ph == 1 && dir == 1 && !viaTunnel) && !bytes.Contains(inband, b) {
+				c.violate("tunnel-relay:inband-bytes-not-passed-on:"+phaseName[ph], "bytes that reached the relay in-band after it had read the ACT were not passed on in-band",
+					fmt.Sprintf("%q typed %s; in-band stream %q :: %s", b, phaseName[ph], c17Short(inband), sc.describe()))
+			}
+		}
+	}
+	sc.oracles("handshake")
+	var cobs, sobs []string
+	for _, p := range sc.peers {
+		cobs = append(cobs, c17rObs(p))
+		sobs = append(sobs, c17rObs(sc.srvs[p.idx]))
+	}
+	if len(cobs) == 0 {
+		cobs, sobs = []string{"-"}, []string{"-"}
+	}
+	ad := "-"
+	if sc.adopted >= 0 {
+		ad = strconv.Itoa(sc.adopted)
+	} else if sc.adopted == -2 {
+		ad = "?"
+	}
+	result := strings.Join(cobs, ",") + "|s=" + strings.Join(sobs, ",") + "|a=" + ad + "|in=" + hx(c17rCanon(toSrv)) + "|out=" + hx(c17rCanon(toCli))
+	c.count(fmt.Sprintf("hs:est=%v,tunnel=%v,confirm=%v,junk=%v", pl.est, pl.tun, pl.confirm, pl.junk))
+	sc.mu.Lock()
+	evs := c17rEvs(sc.evs)
+	sc.mu.Unlock()
+	return &c17Line{true, "rtunnel_hs", result, []string{hx([]byte(sc.uid)), strconv.Itoa(sc.sport), strconv.Itoa(sc.rport), evs}}
+}
+
+// c17rHsPlanAt: the corpus (every phase alone and all together, for every shape of handshake), then random plans
+func c17rHsPlanAt(rng *rand.Rand, i int) c17rHsPlan {
+	shapes := []c17rHsPlan{
+		{est: true, actTunnel: true, tun: true, confirm: true},    // the tunnel agreed: the seeded class
+		{est: true, actTunnel: false, tun: true, confirm: true},   // … the ACT itself typed in-band
+		{est: true, actTunnel: true, tun: false, confirm: true},   // a tunnel exists, the client says it does not use it
+		{est: false, actTunnel: false, tun: false, confirm: true}, // no tunnel at all
+		{est: true, actTunnel: true, tun: true, confirm: false},
+		{est: false, actTunnel: false, tun: false, confirm: false},
+		{est: true, actTunnel: true, junk: true},
+		{est: false, junk: true},
+	}
+	typings := [][4][2]bool{
+		{{false, false}, {true, false}, {false, false}, {false, false}}, // keys between ACT and CFG: the seed's own history
+		{{true, true}, {true, true}, {true, true}, {true, true}},
+		{{true, false}, {false, false}, {false, false}, {false, false}},
+		{{false, false}, {false, true}, {false, false}, {false, false}},
+		{{false, false}, {false, false}, {true, true}, {false, false}},
+		{{false, false}, {false, false}, {false, false}, {true, true}},
+	}
+	var pl c17rHsPlan
+	if i < len(shapes)*len(typings) {
+		pl = shapes[i%len(shapes)]
+		pl.typed = typings[i/len(shapes)]
+		pl.exit = []int{0, 1, 2}[(i/len(shapes))%3]
+	} else {
+		pl = shapes[rng.Intn(len(shapes))]
+		if rng.Intn(3) == 0 {
+			pl = shapes[0]
+		}
+		for ph := 0; ph < 4; ph++ {
+			for dir := 0; dir < 2; dir++ {
+				pl.typed[ph][dir] = rng.Intn(2) == 0
+			}
+		}
+		pl.exit = rng.Intn(3)
+	}
+	if !pl.est && pl.exit == 1 {
+		pl.exit = 2
+	}
+	return pl
+}
+
 type c17rProgress struct {
 	mu sync.Mutex
 	sc *c17rScenario
@@ -811,7 +1113,8 @@ func (p *c17rProgress) String() string {
 type c17rE2ECase struct {
 	seed   int64
 	upload bool
-	pre    []int // kinds of the intruders that talk to the relay's port while the trigger is held back
+	pre    []int   // kinds of the intruders that talk to the relay's port while the trigger is held back
+	typed  [3]bool // keys typed in-band at the relay's client side: before the ACT / between ACT and CFG / after the CFG
 	line   *c17Line
 	viol   [][3]string
 	stats  map[string]int
@@ -835,6 +1138,26 @@ func c17rRunE2E(ec *c17rE2ECase, work string) {
 	var genuine atomic.Int32
 	genuine.Store(-1)
 	var gotReply atomic.Value
+	// keys typed in-band at the relay (the client's terminal side), at chosen points of the relay's handshake
+	var relayIn io.Writer
+	var inMu sync.Mutex
+	var inbandToServer, relayToServerTunnel, clientFromTunnel bytes.Buffer
+	keys := [3][]byte{[]byte("<KA>ls -l\r"), []byte("<KB>ls -l\r"), []byte("<KC>ls -l\r")}
+	typeKeys := func(ph int, wait bool) {
+		if !ec.typed[ph] || relayIn == nil {
+			return
+		}
+		relayIn.Write(keys[ph])
+		sc.ev(fmt.Sprintf("i0:%s", hx(keys[ph])))
+		lc.count("e2e:typed:" + []string{"before-ACT", "between-ACT-and-CFG", "after-CFG"}[ph])
+		if wait { // until they have gone by in-band (they must), or give up
+			c17WaitUntil(400*time.Millisecond, func() bool {
+				inMu.Lock()
+				defer inMu.Unlock()
+				return bytes.Contains(inbandToServer.Bytes(), keys[ph])
+			})
+		}
+	}
 	tap := func(b []byte) {
 		seen = append(seen, b...)
 		m := c17rTriggerRe.FindSubmatch(seen)
@@ -873,9 +1196,15 @@ func c17rRunE2E(ec *c17rE2ECase, work string) {
 					sc.ev(fmt.Sprintf("x%d", p.idx))
 				}
 			}
+			typeKeys(0, false) // parked by the relay; eaten as junk in front of the ACT line
 		})
 	}
 	hook := func(dir int, idx int, b []byte) e2eAction {
+		if dir == dirC2S {
+			inMu.Lock()
+			inbandToServer.Write(b)
+			inMu.Unlock()
+		}
 		if dir == dirS2C && sc.sport == 0 {
 			if m := c17rTriggerRe.FindSubmatch(b); m != nil {
 				sc.sport, _ = strconv.Atoi(string(m[2]))
@@ -903,7 +1232,7 @@ func c17rRunE2E(ec *c17rE2ECase, work string) {
 		if port != sc.rport {
 			lc.violate("tunnel-relay-e2e:client-port", "the client's connector was called with a port other than the relay's", fmt.Sprintf("called with %d, relay announced %d", port, sc.rport))
 		}
-		return &c17rFirstRead{Conn: conn, got: &gotReply}
+		return &c17rFirstRead{Conn: conn, got: &gotReply, mu: &inMu, rlog: &clientFromTunnel}
 	}
 	relayConnector := func(port int) net.Conn { // the RELAY's connector: reaches the real trz / tsz
 		conn, err := net.DialTimeout("tcp", "127.0.0.1:"+strconv.Itoa(port), time.Second)
@@ -916,13 +1245,18 @@ func c17rRunE2E(ec *c17rE2ECase, work string) {
 		_, sh3 := trzsz.VerifGetHelloConstant(sc.uid, port)
 		sc.ev(fmt.Sprintf("W%d:%s", g, hx([]byte(sh3)))) // what the real server answers is checked by group tunnel
 		lc.count("e2e:relay-dialled-server")
-		return conn
+		// the server's CFG is held back while keys are typed between ACT and CFG (the server has read the ACT by then: it
+		// ignores in-band input), keys after the CFG follow it
+		return &c17rHsConn{Conn: conn, mu: &inMu, wlog: &relayToServerTunnel,
+			onCfg:    func() { typeKeys(1, true) },
+			afterCfg: func() { time.Sleep(15 * time.Millisecond); typeKeys(2, false) }}
 	}
 	cfg := e2eCfg{upload: ec.upload, timeout: 10, deadline: c17E2EDeadline, startWait: 6 * time.Second, proto: -1, quiet: true,
-		relays: 1, hook: hook, connector: connector, relayConnector: relayConnector, relayTap: tap}
+		relays: 1, hook: hook, connector: connector, relayConnector: relayConnector, relayTap: tap,
+		onRelayIn: func(w io.Writer) { relayIn = w }}
 	res := runTransfer(cfg, []string{srcFile}, filepath.Join(root, "dest"))
 	time.Sleep(5 * time.Millisecond)
-	ec.desc = fmt.Sprintf("relay-e2e seed=%d upload=%v pre=%v :: %s", ec.seed, ec.upload, ec.pre, sc.describe())
+	ec.desc = fmt.Sprintf("relay-e2e seed=%d upload=%v pre=%v typed(before-ACT, between-ACT-and-CFG, after-CFG)=%v :: %s", ec.seed, ec.upload, ec.pre, ec.typed, sc.describe())
 	_, sh4 := trzsz.VerifGetHelloConstant(sc.uid, sc.rport)
 	g := int(genuine.Load())
 	if g >= 0 && g < len(sc.peers) {
@@ -949,6 +1283,32 @@ func c17rRunE2E(ec *c17rE2ECase, work string) {
 		if len(got) > 0 && string(fr) != ch1 {
 			lc.violate("tunnel-relay-e2e:intruder-answered:"+c17rKindName(sc.kinds[p.idx]), "an intruder on the relay's port received bytes",
 				fmt.Sprintf("conn=%d sent=%q received=%q :: %s", p.idx, c17Short(p.sent), c17Short(got), ec.desc))
+		}
+	}
+	inMu.Lock()
+	r2s, c4t, ib := append([]byte(nil), relayToServerTunnel.Bytes()...), append([]byte(nil), clientFromTunnel.Bytes()...), append([]byte(nil), inbandToServer.Bytes()...)
+	inMu.Unlock()
+	for ph := 0; ph < 3; ph++ {
+		if !ec.typed[ph] {
+			continue
+		}
+		name := []string{"before-ACT", "between-ACT-and-CFG", "after-CFG"}[ph]
+		for _, t := range []struct {
+			what string
+			b    []byte
+		}{{"what the relay wrote to the server's tunnel connection", r2s}, {"what the client read from its tunnel connection", c4t}} {
+			if i := bytes.Index(t.b, keys[ph][:4]); i >= 0 {
+				lo := i - 30
+				if lo < 0 {
+					lo = 0
+				}
+				lc.violate("tunnel-relay-e2e:inband-bytes-in-tunnel:"+name, "keys typed in-band at the relay appeared on a tunnel connection",
+					fmt.Sprintf("%q typed %s; %s contains …%q… :: %s", keys[ph], name, t.what, c17Short(t.b[lo:]), ec.desc))
+			}
+		}
+		if ph >= 1 && !bytes.Contains(ib, keys[ph]) {
+			lc.violate("tunnel-relay-e2e:inband-bytes-not-passed-on:"+name, "keys typed in-band at the relay after the tunnel had been agreed were not passed on in-band to the server",
+				fmt.Sprintf("%q typed %s :: %s", keys[ph], name, ec.desc))
 		}
 	}
 	ok := !res.hung && res.clientDone && res.serverExited && (!ec.upload || res.uploadErr == nil)
@@ -996,12 +1356,55 @@ type c17rFirstRead struct {
 	net.Conn
 	got  *atomic.Value
 	done atomic.Bool
+	mu   *sync.Mutex
+	rlog *bytes.Buffer // the first 64 KiB of what was read
 }
 
 func (w *c17rFirstRead) Read(b []byte) (int, error) {
 	n, err := w.Conn.Read(b)
 	if n > 0 && w.done.CompareAndSwap(false, true) {
 		w.got.Store(append([]byte(nil), b[:n]...))
+	}
+	if n > 0 && w.rlog != nil {
+		w.mu.Lock()
+		if w.rlog.Len() < 65536 {
+			w.rlog.Write(b[:n])
+		}
+		w.mu.Unlock()
+	}
+	return n, err
+}
+
+// c17rHsConn: the relay's end of its connection to the server: logs the head of what the relay writes, holds the
+// server's CFG back while the harness types, and tells when it has gone through
+type c17rHsConn struct {
+	net.Conn
+	mu       *sync.Mutex
+	wlog     *bytes.Buffer
+	rseen    []byte
+	cfgDone  bool
+	onCfg    func()
+	afterCfg func()
+}
+
+func (w *c17rHsConn) Write(b []byte) (int, error) {
+	w.mu.Lock()
+	if w.wlog.Len() < 65536 {
+		w.wlog.Write(b)
+	}
+	w.mu.Unlock()
+	return w.Conn.Write(b)
+}
+
+func (w *c17rHsConn) Read(b []byte) (int, error) {
+	n, err := w.Conn.Read(b)
+	if n > 0 && !w.cfgDone {
+		w.rseen = append(w.rseen, b[:n]...)
+		if bytes.Contains(w.rseen, []byte("#CFG:")) {
+			w.cfgDone = true
+			w.onCfg()
+			go w.afterCfg()
+		}
 	}
 	return n, err
 }
@@ -1068,6 +1471,31 @@ func genC17RelayChild(c *ctx) {
 				c.emit(r.l.nontrivial, r.l.fn, r.l.result, r.l.args...)
 			}
 		}
+	case "hs":
+		for i := 0; i < n; i++ {
+			seed := c.rng.Int63()
+			pl := c17rHsPlanAt(rand.New(rand.NewSource(seed)), first+i)
+			prog := &c17rProgress{}
+			note(fmt.Sprintf("handshake scenario #%d seed=%d plan=%s", first+i, seed, pl))
+			type res struct {
+				lc *ctx
+				l  *c17Line
+			}
+			r, finished := c17Guard(c17ScenarioLimit+8*time.Second, func() res {
+				lc := &ctx{rng: rand.New(rand.NewSource(seed)), tier: c.tier, stats: map[string]int{}, seen: map[string]bool{}}
+				return res{lc, c17rHandshake(lc, seed, pl, prog)}
+			})
+			if !finished {
+				c.count("abandoned:relay-handshake")
+				c.violate("tunnel-relay:scenario-stuck:handshake", "a relay handshake scenario did not finish (watchdog)",
+					fmt.Sprintf("no end within %v; seed=%d plan=%s :: %s", c17ScenarioLimit+8*time.Second, seed, pl, prog))
+				return
+			}
+			c17Merge(c, r.lc)
+			if r.l != nil {
+				c.emit(r.l.nontrivial, r.l.fn, r.l.result, r.l.args...)
+			}
+		}
 	case "e2e":
 		work, _ := os.MkdirTemp("", "c17r_e2e_")
 		defer os.RemoveAll(work)
@@ -1079,7 +1507,15 @@ func genC17RelayChild(c *ctx) {
 					ec.pre = append(ec.pre, intr[c.rng.Intn(len(intr))])
 				}
 			}
-			note(fmt.Sprintf("e2e scenario #%d seed=%d upload=%v pre=%v", first+i, ec.seed, ec.upload, ec.pre))
+			switch {
+			case first+i == 0:
+				ec.typed = [3]bool{false, true, false} // the seed's own history: keys between ACT and CFG
+			case first+i < 3:
+				ec.typed = [3]bool{true, true, true}
+			default:
+				ec.typed = [3]bool{c.rng.Intn(2) == 0, c.rng.Intn(3) != 0, c.rng.Intn(2) == 0}
+			}
+			note(fmt.Sprintf("e2e scenario #%d seed=%d upload=%v pre=%v typed=%v", first+i, ec.seed, ec.upload, ec.pre, ec.typed))
 			done, finished := c17Guard(c17E2ELimit, func() *c17rE2ECase { e := *ec; c17rRunE2E(&e, work); return &e })
 			if !finished {
 				c.count("abandoned:relay-e2e")
@@ -1217,6 +1653,10 @@ func genC17Relay(c *ctx) {
 	nRun := c.pick(14, 80)
 	for i := 0; i < nRun; i++ {
 		specs = append(specs, c17rChildSpec{mode: "run", first: i * per, count: per, seed: c.rng.Int63(), limit: 75 * time.Second})
+	}
+	nHs := c.pick(8, 48)
+	for i := 0; i < nHs; i++ {
+		specs = append(specs, c17rChildSpec{mode: "hs", first: i * 8, count: 8, seed: c.rng.Int63(), limit: 75 * time.Second})
 	}
 	nE2E := c.pick(4, 24)
 	for i := 0; i < nE2E; i++ {
